@@ -122,6 +122,9 @@ def final_ctx(ex, o, holder):
 
 def unit(u, res):
     kind = u[0]
+    if kind == 'step':
+        import c08
+        return c08.unit(u[1], res)
     C = ctx()
     timeout_ms = u[-2]
     pr = checklib.Prover(res, timeout_ms, CVC5_RATE[0], random.Random(zlib.crc32(repr(u).encode()) ^ checklib.env_seed()))
@@ -517,9 +520,19 @@ def main():
             for ty in (None, 'F', 'T1'):
                 for with_fn in (False, True):
                     units.append(('misc', what, tx, ty, with_fn, timeout_ms, seed))
+    # "... or by an expression": assignments anywhere in an expression reach Operator::eval_mut with the caller's context -- the C08 inductive step on
+    # the mutable node evaluator (every node evaluates its children in order and applies its operator through eval_mut with that context)
+    import c08
+    sunits, maxk, _ = c08.make_units(tier, seed, PID)
+    units += [('step', s) for s in sunits if s[2]]
     random.Random(seed).shuffle(units)
     results = checklib.run_units(checklib.safe_worker(unit), units)
-    checklib.finish(PID, results, t0=t0, replay_fn=replay_ce,
+
+    def rp(ce):
+        if 'operator' in ce and 'children' in ce:
+            return c08.replay_ce(ce)
+        return replay_ce(ce)
+    checklib.finish(PID, results, t0=t0, replay_fn=rp,
                     rule='one inductive step per (pre-state shape, operation): pre-states = maps over {x, y} with each name unbound or bound to a value of any of the 6 types '
                          '(payloads solver variables), optional user function, symbolic builtin flag; operations = set_value(name in {x,y,z}, value of each type), Operator::eval_mut for '
                          'Assign and the 8 op-assigns, get_value, clear_variables/clear_functions/clear, set_function, set_builtin_functions_disabled, iter_variables, '
